@@ -15,7 +15,7 @@ pub fn meta() -> Meta {
     Meta {
         id: "C15",
         level: "exploration",
-        rule: "complete enumeration of the finite domains: 4x256 cells of IUPAC, 256 cells of RC_IUPAC, is_ambiguous/base_to_prob on all IUPAC letters+U+gap in both cases, encode/decode/rc/valid on A,C,G,T,U,N both cases; then every ordered sequence of <=4 observed middle bases (both strand modes, incl. self-reverse-complement arms) through a real build, and every code x orientation through the real map strand correction. Non-trivial = a cell/case whose expected value is not the default (0 / '-' / not ambiguous). The weights where they are applied: `ska distance --allow-ambiguous` on a three-sample row (x, y, z) for every ordered pair of the 15 codes (z makes the site variable) prints exactly 1 - sum_b p_x(b) p_y(b) for each pair; and on every table of two such sites (x1, y1, z1), (x2, y2, z2) over the 15 codes, in both row orders, the sum over the two sites.".into(),
+        rule: "complete enumeration of the finite domains: 4x256 cells of IUPAC, 256 cells of RC_IUPAC, is_ambiguous/base_to_prob on all IUPAC letters+U+gap in both cases, encode/decode/rc/valid on A,C,G,T,U,N both cases; then every ordered sequence of <=4 observed middle bases (both strand modes, incl. self-reverse-complement arms) through a real build, and every code x orientation through the real map strand correction. Non-trivial = a cell/case whose expected value is not the default (0 / '-' / not ambiguous). The weights where they are applied: `ska distance --allow-ambiguous` on a three-sample row (x, y, z) for every ordered pair of the 15 codes (z makes the site variable) prints exactly 1 - sum_b p_x(b) p_y(b) for each pair; and on every table of two such sites (x1, y1, z1), (x2, y2, z2) over the 15 codes, in both row orders, the sum over the two sites; and under --min-freq: a three-sample row over all 16 symbols (gap included, constant rows left out) next to a fixed second row, every threshold 0..3 (a code is a call: the row stays when enough samples have a call).".into(),
         assumptions: vec!["U is not part of the union algebra: RC_IUPAC[U] may be 'A' or '-'".into(),
             "lower-case distance weights may be uniform-over-set or all-zero (stored bases are always upper case)".into()],
         exhaustive_when_uncapped: true,
@@ -31,6 +31,7 @@ pub fn run(ctx: &Ctx, rep: &mut Report) {
         run_tables(rep);
     }
     run_two_sites(ctx, rep);
+    run_thresholds(ctx, rep);
     rep.completed.push("all".into());
 }
 
@@ -324,6 +325,78 @@ fn run_two_sites(ctx: &Ctx, rep: &mut Report) {
                                 ),
                             }
                         }
+                    }
+                }
+            }
+        }
+    }
+}
+
+/// 10. the weights under a frequency threshold: `ska distance --allow-ambiguous --min-freq f` on three samples, a row
+/// (x, y, z) over all 16 symbols (gap included) next to a fixed second row, every threshold 0..3. With
+/// --allow-ambiguous a code is a call like any other: the row stays when at least `threshold` samples have a call, and
+/// then weighs 1 - sum_b p_x(b) p_y(b) for each pair with two calls.
+fn run_thresholds(ctx: &Ctx, rep: &mut Report) {
+    let k = 5usize;
+    let weight = |c: u8| -> [f64; 4] {
+        let set = if c == b'N' { 0 } else { set_of(c).unwrap_or(0) };
+        let n = set.count_ones() as f64;
+        let mut w = [0.0; 4];
+        for (i, b) in [b'A', b'C', b'G', b'T'].iter().enumerate() {
+            if set & set_of(*b).unwrap() != 0 {
+                w[i] = 1.0 / n;
+            }
+        }
+        w
+    };
+    let dist = |a: u8, b: u8| -> f64 { 1.0 - weight(a).iter().zip(weight(b)).map(|(p, q)| p * q).sum::<f64>() };
+    let mut symbols: Vec<u8> = IUPAC_SETS.iter().map(|(c, _)| *c).collect();
+    symbols.push(b'-');
+    let second: [u8; 3] = [b'A', b'C', b'-'];
+    let mut idx = 0u64;
+    for x in &symbols {
+        for y in &symbols {
+            idx += 1;
+            if !ctx.mine(idx) {
+                continue;
+            }
+            for z in &symbols {
+                if *x == b'-' && *y == b'-' && *z == b'-' {
+                    continue;
+                }
+                let first = [*x, *y, *z];
+                // (a row whose calls are all the same symbol is a constant site and is not weighed at all: left out,
+                // as in parts 8 and 9)
+                let calls: std::collections::BTreeSet<u8> = first.iter().copied().filter(|b| *b != b'-').collect();
+                if calls.len() < 2 {
+                    continue;
+                }
+                let mut rows = std::collections::BTreeMap::new();
+                rows.insert("ACGA".to_string(), first.to_vec());
+                rows.insert("CAAG".to_string(), second.to_vec());
+                let t = Table { k, rc: true, names: vec!["s0".into(), "s1".into(), "s2".into()], rows };
+                for thr in 0..=3usize {
+                    rep.evaluations += 1;
+                    rep.nontrivial += 1;
+                    let kept: Vec<&[u8; 3]> = [&first, &second].into_iter().filter(|r| r.iter().filter(|b| **b != b'-').count() >= thr).collect();
+                    let mut want = Vec::new();
+                    for i in 0..3usize {
+                        for j in (i + 1)..3 {
+                            let d: f64 = kept.iter().filter(|r| r[i] != b'-' && r[j] != b'-').map(|r| dist(r[i], r[j])).sum::<f64>() + 0.0; // (+ 0.0: an empty f64 sum is -0.0)
+                            let one = kept.iter().filter(|r| (r[i] == b'-') != (r[j] == b'-')).count();
+                            let any = kept.iter().filter(|r| r[i] != b'-' || r[j] != b'-').count();
+                            let mm = if any == 0 { 0.0 } else { one as f64 / any as f64 };
+                            want.push(format!("s{i}\ts{j}\t{:.2}\t{:.5}", d, mm));
+                        }
+                    }
+                    rep.outcome(&("weights-thr", want.clone()));
+                    match super::c14::real_distance(&t, freq_for_threshold(thr, 3), true) {
+                        Ok(got) if got == want => {}
+                        other => rep.violate(
+                            format!("distance-weights-threshold {}{}{} thr={thr}", *x as char, *y as char, *z as char),
+                            format!("ska distance --allow-ambiguous --min-freq {:.3} (threshold {thr} of 3) on the rows ({}, {}, {}) and (A, C, -): {:?}, expected {:?}", freq_for_threshold(thr, 3), *x as char, *y as char, *z as char, other, want),
+                            json!({"part":"distance-weights-threshold","x":*x as char,"y":*y as char,"z":*z as char,"thr":thr}),
+                        ),
                     }
                 }
             }
